@@ -56,9 +56,9 @@ BindingInitQuick ==
      nl \in {0, 1}, pc \in {0, 4}, dg \in {3}, nt \in {0, 1} :
        InitWith(MkStmtShape(np, cm, pl, phs, nl, pc, dg, nt))
 BindingInitThorough ==
-  \E np \in {1, 2, 3}, cm \in {0, 1, 2}, pl \in {<<>>, <<1>>, <<2, 1>>, <<0, 2>>, <<1, 1, 2>>},
+  \E np \in {1, 2, 3}, cm \in {0, 1, 2}, pl \in {<<>>, <<1>>, <<2, 1>>, <<1, 0, 2>>},
      phs \in { <<Ph(3, 0)>>, <<Ph(3, 1), Ph(1, 1)>>, <<Ph(4, 0), Ph(2, 1), Ph(1, 1)>> },
-     nl \in {0, 1, 2}, pc \in {0, 4, 7}, dg \in {3, 4}, nt \in {0, 1} :
+     nl \in {0, 2}, pc \in {0, 7}, dg \in {3}, nt \in {0, 1} :
        InitWith(MkStmtShape(np, cm, pl, phs, nl, pc, dg, nt))
 BindingSpecQuick == BindingInitQuick /\ [][Next]_vars
 BindingSpecThorough == BindingInitThorough /\ [][Next]_vars
